@@ -10,3 +10,5 @@ import CGV.Props.C14
 #print axioms CGV.C14.C14_numeric_spellings
 #print axioms CGV.C14.C14_atom_propagate
 #print axioms CGV.C14.C14_sort_keeps
+#print axioms CGV.bindSig_perm
+#print axioms CGV.lookup_perm
